@@ -53,7 +53,14 @@ def check(pid, tier):
     # vacuity guard against the ledger: an obligation discharged on the unchanged tree must still be GENERATED as long as
     # its function is found and executed (a function that became unsupported/inapplicable is a demotion, not a fault)
     have = set(o.name for o in ded.obligations)
-    for name in ledger:
+    # ... and only while the code under contract is the code the ledger was made from: once any function under contract has
+    # changed (different source hash), obligations may legitimately appear or disappear (a removed branch, a renamed label)
+    led_sha = {}
+    for name, sha in ledger.items():
+        led_sha.setdefault(name.split(': ')[0], set()).add(str(sha)[:16])
+    changed = sorted(fn for fn, info in ded.functions.items()
+                     if fn in led_sha and str(info.get('source_sha256', ''))[:16] not in led_sha[fn])
+    for name in ([] if changed else ledger):
         if name in have:
             continue
         fn = name.split(': ')[0]
